@@ -25,6 +25,7 @@ import (
 	"math/big"
 	"math/rand"
 	"sort"
+	"sync"
 	"strings"
 	"sync/atomic"
 	"time"
@@ -63,7 +64,7 @@ var tokensAges = map[string]time.Duration{"fresh": 0, "1h": time.Hour, "13d": 13
 
 // tamper kinds. With a storage wrapper the record stays sealed (wrapping_key_id
 // kept); without a wrapper the edits change the stored plain time.
-var tokensSealedTampers = []string{"clear-field-now", "clear-field-future", "swap-blob", "garbage", "garbage-blobinfo", "truncate", "clear-as-blob"}
+var tokensSealedTampers = []string{"clear-field-now", "clear-field-future", "swap-blob", "swap-record", "garbage", "garbage-blobinfo", "truncate", "clear-as-blob"}
 var tokensPlainTampers = []string{"plain-time-now", "plain-time-garbage", "plain-clear-field"}
 
 // tkStep is one step of a history
@@ -111,6 +112,23 @@ type tokensFaultStore struct {
 	failTokRemove atomic.Bool
 	fired         atomic.Int32
 	kindSeq       atomic.Int32
+	// redirect models a storage in which a whole stored token record was moved into another token's
+	// slot (e.g. a file copied over another): a load of slot k returns the record stored under redirect[k],
+	// embedded id included
+	mu       sync.Mutex
+	redirect map[string]string
+}
+
+func (f *tokensFaultStore) Load(ctx context.Context, m nodeenrollment.MessageWithId) error {
+	if t, ok := m.(*types.ServerLedActivationToken); ok && t != nil {
+		f.mu.Lock()
+		to := f.redirect[t.Id]
+		f.mu.Unlock()
+		if to != "" {
+			t.Id = to
+		}
+	}
+	return f.Storage.Load(ctx, m)
 }
 
 func (f *tokensFaultStore) Remove(ctx context.Context, m nodeenrollment.MessageWithId) error {
@@ -434,6 +452,17 @@ func (h *tkRun) doTamper(st *tkStep) {
 		r.Count("step-skipped", 1)
 		return
 	}
+	// a record that another token's slot points at is left alone from here on: what that slot shows would
+	// change with it
+	h.fs.mu.Lock()
+	for _, to := range h.fs.redirect {
+		if to == t.id {
+			h.fs.mu.Unlock()
+			r.Count("step-skipped", 1)
+			return
+		}
+	}
+	h.fs.mu.Unlock()
 	now := time.Now()
 	sealed := rec.WrappingKeyId != ""
 	switch st.Tamper {
@@ -468,6 +497,40 @@ func (h *tkRun) doTamper(st *tkStep) {
 		if t.blob.owner == t.idx {
 			r.Count("tamper:swap-blob:own-value-moved-back", 1)
 		}
+	case "swap-record":
+		// the whole stored record of another token takes this token's slot
+		src := h.tok(st.Src)
+		if !sealed || src == nil || src == t {
+			r.Count("step-skipped", 1)
+			return
+		}
+		if _, ok := h.rawToken(src.id); !ok {
+			r.Count("step-skipped", 1)
+			return
+		}
+		h.fs.mu.Lock()
+		_, srcRedirected := h.fs.redirect[src.id]
+		h.fs.mu.Unlock()
+		if srcRedirected || src.blob.owner != src.idx || src.blob.kind != "" {
+			// keep the case unambiguous: the moved record must hold the source token's own, unedited
+			// sealed value (otherwise it might legitimately open under this token's id)
+			r.Count("step-skipped", 1)
+			return
+		}
+		h.fs.mu.Lock()
+		if h.fs.redirect == nil {
+			h.fs.redirect = map[string]string{}
+		}
+		h.fs.redirect[t.id] = src.id
+		h.fs.mu.Unlock()
+		if src.broken() == "" && src.blob.age < t.blob.age && t.broken() == "" {
+			r.Count("tamper:swap-record:younger-into-older", 1)
+		}
+		t.blob = src.blob
+		t.blob.kind = "swap-record"
+		t.lastTamper = "swap-record"
+		r.Count("tamper:swap-record", 1)
+		return
 	case "garbage":
 		if !sealed {
 			r.Count("step-skipped", 1)
@@ -1079,6 +1142,12 @@ func tokensDirected(rng *rand.Rand) []tkCase {
 								{Op: "tamper", Tok: 0, Tamper: "swap-blob", Src: 1},
 								use(0, 0, life), use(1, 1, life), use(0, 2, "1000d"),
 							}})
+							// the young token's whole stored record takes the expired token's slot
+							out = append(out, tkCase{Wrap: true, Origin: "directed:swap-record", Steps: []tkStep{
+								{Op: "create"}, {Op: "create", State: true}, {Op: "age", Tok: 0, Age: age}, {Op: "age", Tok: 1, Age: young},
+								{Op: "tamper", Tok: 0, Tamper: "swap-record", Src: 1},
+								use(0, 0, life), use(0, 2, "1000d"),
+							}})
 							break
 						}
 					} else {
@@ -1239,18 +1308,18 @@ func tokensRandomCase(rng *rand.Rand) tkCase {
 			}
 			kind := kinds[rng.Intn(len(kinds))]
 			src := rng.Intn(len(toks))
-			if kind == "swap-blob" && len(toks) < 2 {
+			if (kind == "swap-blob" || kind == "swap-record") && len(toks) < 2 {
 				if len(toks) < tokensMaxTokens {
 					create()
 				}
 				src = len(toks) - 1
 			}
-			if kind == "swap-blob" && src == t {
+			if (kind == "swap-blob" || kind == "swap-record") && src == t {
 				src = (t + 1) % len(toks)
 			}
 			tc.Steps = append(tc.Steps, tokensTamperStep(rng, t, kind, src))
 			switch kind {
-			case "swap-blob", "garbage", "garbage-blobinfo", "clear-as-blob":
+			case "swap-blob", "swap-record", "garbage", "garbage-blobinfo", "clear-as-blob":
 				toks[t].broken = true
 			case "plain-time-now", "plain-clear-field":
 				toks[t].age = "fresh"
